@@ -118,10 +118,11 @@ type lexer struct {
 	tokens chan token
 	state  stateFn
 	mode   mode
-	last   token // The last emitted token
-	parens int   // Number of open parenthesis
-	width  int   // Number of bytes consumed by the last call to next
-	tagPos int   // The position just after the last tag open delimiter
+	last   token  // The last emitted token
+	parens int    // Number of open parenthesis
+	opened []byte // The open parenthesis, brackets and braces, innermost last
+	width  int    // Number of bytes consumed by the last call to next
+	tagPos int    // The position just after the last tag open delimiter
 
 	done     chan struct{} // Closed by stop when no more tokens will be read.
 	stopOnce sync.Once
@@ -201,7 +202,7 @@ func (l *lexer) tokenize() {
 func newLexer(input io.Reader) *lexer {
 	// TODO: lexer should use the reader.
 	i, err := ioutil.ReadAll(input)
-	return &lexer{0, 0, 1, 0, string(i), make(chan token), nil, modeNormal, token{}, 0, 0, 0, make(chan struct{}), sync.Once{}, err}
+	return &lexer{0, 0, 1, 0, string(i), make(chan token), nil, modeNormal, token{}, 0, nil, 0, 0, make(chan struct{}), sync.Once{}, err}
 }
 
 func (l *lexer) next() (val string) {
@@ -331,7 +332,7 @@ func lexExpression(l *lexer) stateFn {
 		}
 		return lexTagClose
 
-	case strings.HasPrefix(l.input[l.pos:], delimClosePrint),
+	case strings.HasPrefix(l.input[l.pos:], delimClosePrint) && !l.inHash() && l.mode != modeInterpolate,
 		strings.HasPrefix(l.input[l.pos:], delimTrimWhitespace+delimClosePrint):
 		if l.pos > l.start {
 			return l.errorf("pos > start, previous token not emitted?")
@@ -472,8 +473,8 @@ func lexString(l *lexer) stateFn {
 		// Brackets opened outside the string are of no concern to the
 		// expressions inside it: the closing brace of an interpolation is
 		// recognised by there being no open bracket within the interpolation.
-		parens := l.parens
-		l.parens = 0
+		parens, opened := l.parens, l.opened
+		l.parens, l.opened = 0, nil
 		// The string may itself stand in an interpolation of another string.
 		mode := l.mode
 		for {
@@ -500,7 +501,7 @@ func lexString(l *lexer) stateFn {
 			l.emit(tokenText)
 		}
 		l.input = input
-		l.parens = parens
+		l.parens, l.opened = parens, opened
 	} else {
 		l.pos += closePos
 		l.emit(tokenText)
@@ -577,6 +578,13 @@ func interpolationEnd(s string) int {
 	return -1
 }
 
+// inHash reports whether the innermost open bracket is the brace of a hash,
+// in which case a closing brace closes that hash: in {{ {a: {b: 1}} }} the
+// first two of the closing braces are not the end of the print statement.
+func (l *lexer) inHash() bool {
+	return len(l.opened) > 0 && l.opened[len(l.opened)-1] == '{'
+}
+
 func lexOpenParens(l *lexer) stateFn {
 	switch str := l.next(); {
 	case str == "(":
@@ -592,6 +600,7 @@ func lexOpenParens(l *lexer) stateFn {
 		return l.errorf("unknown parenthesis")
 	}
 	l.parens++
+	l.opened = append(l.opened, l.input[l.pos-1])
 	return lexExpression
 }
 
@@ -613,6 +622,9 @@ func lexCloseParens(l *lexer) stateFn {
 		return l.errorf("invalid parenthesis")
 	}
 	l.parens--
+	if n := len(l.opened); n > 0 {
+		l.opened = l.opened[:n-1]
+	}
 	return lexExpression
 }
 
